@@ -1371,7 +1371,11 @@ def plan_C15(ctx):
             sexecs.append((len(cmds), cmds))
     ctx.family, ctx.tracespec, ctx.env_flags = "spline", "TraceSpline", {"VJ_KEEPMEMO": "1"}
     replay_and_validate(ctx, vbuild.spline_replay(), balanced(sexecs, 16 if ctx.quick() else 48), "TraceSpline", {"VJ_KEEPMEMO": "1"}, label="s")
+    if not ctx.quick():
+        asan = vbuild.opt_replay(extra_flags=["-fsanitize=address", "-O1", "-g", "-DOPT_FREE_ON_DESTROY"], link_flags=["-fsanitize=address"], name="opt_replay_asan")
+        run_asan(ctx, asan, balanced(hexecs, 16), "C15")
     return opt_finish(ctx, balanced(hexecs, 32 if ctx.quick() else 96), {},
+                      "(thorough tier: the same scripts also run on an AddressSanitizer build in which destroyed optimizers are freed) "
                       "ownership model explored exhaustively by TLC (construct, copy-construct, assign incl. self and onto an optimizer owning a "
                       "workspace, set maps, evaluate with built-in / external workspace, mutate user map, destroy; NoDangling, NoSharedWorkspace; "
                       "broken twins 'verbatim pointer copy' and 'shared workspace' rejected); one script per transition, replayed with STATEFUL "
@@ -1646,6 +1650,39 @@ def run_tsan(ctx, exe, batches, jobs=8):
                              "line": 1, "exec": 1, "batch": i, "script": os.path.join(ctx.work, "t%03d.script.ndjson" % i)})
     ctx.stats["tsan_replays"] = len(batches)
     ctx.stats["tsan_reports"] = nrep
+
+
+def run_asan(ctx, exe, batches, prop, jobs=8):
+    """replay the scripts on an AddressSanitizer build in which destroyed optimizers are really freed: every report is a deviation"""
+    import re as _re
+    from concurrent.futures import ThreadPoolExecutor
+
+    def one(ib):
+        i, cmds = ib
+        base = os.path.join(ctx.work, "a%03d" % i)
+        gen.write_script(base + ".script.ndjson", cmds)
+        env = dict(os.environ)
+        env["ASAN_OPTIONS"] = "halt_on_error=1 detect_leaks=0 exitcode=0 abort_on_error=0"
+        try:
+            p = subprocess.run([exe, base + ".script.ndjson", base + ".trace.ndjson"], capture_output=True, text=True, timeout=1500, env=env)
+        except subprocess.TimeoutExpired:
+            return (i, "", "timeout")
+        return (i, p.stderr, None)
+    with ThreadPoolExecutor(max_workers=jobs) as ex:
+        res = list(ex.map(one, enumerate(batches)))
+    n = 0
+    for (i, err, bad) in res:
+        if bad:
+            ctx.infra.append("AddressSanitizer replay %d failed: %s" % (i, bad))
+            continue
+        m = _re.search(r"ERROR: AddressSanitizer: ([a-z-]+)", err)
+        if m:
+            n += 1
+            locs = sorted(set(_re.findall(r"(Spline\w+\.hpp:\d+)", err)))[:4]
+            ctx.devs.append({"prop": prop, "code": "asan." + m.group(1), "info": {"where": locs}, "line": 1, "exec": 1, "batch": i,
+                             "script": os.path.join(ctx.work, "a%03d.script.ndjson" % i)})
+    ctx.stats["asan_replays"] = len(batches)
+    ctx.stats["asan_reports"] = n
 
 
 def plan_C12(ctx):
